@@ -225,7 +225,7 @@ func TestCorpusReplay(t *testing.T) {
 }
 
 func TestErrorShapeByteLevel(t *testing.T) {
-	harness.Check(t, "byte-level", 60000, 3000000, func(rt *rapid.T) {
+	harness.Check(t, "byte-level", 60000, 1200000, func(rt *rapid.T) {
 		src, class := inputs.Any(rt)
 		v := rapid.SampledFrom(px.KeyVersions).Draw(rt, "version")
 		harness.Class("src=" + class)
@@ -265,7 +265,7 @@ var brackets = map[byte]int{'(': 0, ')': 0, '[': 1, ']': 1, '{': 2, '}': 2}
 // TestGuaranteedInvalidEdits: a valid generated program plus one edit that no
 // PHP grammar can accept must produce at least one error.
 func TestGuaranteedInvalidEdits(t *testing.T) {
-	harness.Check(t, "invalid-edits", 24000, 1000000, func(rt *rapid.T) {
+	harness.Check(t, "invalid-edits", 24000, 480000, func(rt *rapid.T) {
 		v := rapid.SampledFrom(px.KeyVersions).Draw(rt, "version")
 		o := progs.StructuralOptions(v)
 		o.NoHalt = true // after __halt_compiler(); everything is data
@@ -505,7 +505,7 @@ func TestReplay(t *testing.T) {
 // trait with extends/implements): errors must be delivered, shaped correctly,
 // and the tree must not depend on the callback.
 func TestSemanticErrorPrograms(t *testing.T) {
-	harness.Check(t, "semantic-errors", 6000, 200000, func(rt *rapid.T) {
+	harness.Check(t, "semantic-errors", 6000, 120000, func(rt *rapid.T) {
 		v := rapid.SampledFrom(px.KeyVersions).Draw(rt, "version")
 		subjects := []string{"$a", "$a->b", "[1, 2]", "array(1)", "f()", "$a + $b", "A::b()", "(array) $x", "new ArrayObject", "$a[0]", "clone $a", "\"s\"", "$a ?: $b"}
 		values := []string{"$v", "&$v", "list($x, $y)", "$o->p", "$v[0]"}
